@@ -22,12 +22,14 @@ if REPO != "/repo":
     # a check against another tree (scratch worktree with a seeded change) regenerates H4/Gen from THAT tree: it works on a private copy of the
     # Lean project (sources + build products), so a check of /repo running at the same time never sees the other tree's generated files
     LEAN = os.path.join(WORK, "lean-" + os.path.basename(REPO.rstrip("/")))
-    if not os.path.exists(os.path.join(LEAN, "lakefile.toml")):
-        with open(os.path.join(WORK, "leancopy.lock"), "w") as _f:
-            fcntl.flock(_f, fcntl.LOCK_EX)
-            if not os.path.exists(os.path.join(LEAN, "lakefile.toml")):
-                subprocess.run(["rsync", "-a", "--delete", os.path.join(VERIF, "lean") + "/", LEAN + ".tmp/"], check=True)
-                os.rename(LEAN + ".tmp", LEAN)
+    with open(os.path.join(WORK, "leancopy.lock"), "w") as _f:
+        fcntl.flock(_f, fcntl.LOCK_EX)
+        if not os.path.exists(os.path.join(LEAN, "lakefile.toml")):
+            subprocess.run(["rsync", "-a", "--delete", os.path.join(VERIF, "lean") + "/", LEAN + ".tmp/"], check=True)
+            os.rename(LEAN + ".tmp", LEAN)
+        else:
+            # refresh the sources (a copy made earlier must follow edits of /verif/lean); build products stay
+            subprocess.run(["rsync", "-a", "--exclude", ".lake", os.path.join(VERIF, "lean") + "/", LEAN + "/"], check=True)
 
 
 def log(*a):
